@@ -367,7 +367,7 @@ func pow10(k int) float64 { return math.Pow(10, float64(k)) }
 // genSet: a seeded real point set; family and parameters are functions of (seed, id).
 func genSet(sd int64, id int) (fam, param string, pts []v2.Vec) {
 	rng := rand.New(rand.NewSource(sd*1000003 + int64(id)*7919 + 17))
-	fams := []string{"uniform", "cluster", "hull", "ring", "wide", "offset", "quadrant"}
+	fams := []string{"uniform", "cluster", "hull", "ring", "wide", "offset", "quadrant", "xties"}
 	fam = fams[id%len(fams)]
 	sizes := []int{10, 17, 30, 60, 120, 300}
 	n := sizes[(id/len(fams))%len(sizes)]
@@ -441,6 +441,31 @@ func genSet(sd int64, id int) (fam, param string, pts []v2.Vec) {
 			add(asp*rng.Float64(), rng.Float64())
 		}
 		param = fmt.Sprintf("scale=%g aspect=%g", scale, asp)
+	case "xties":
+		// several pairs (and a triple) of points with exactly the same x: the sweep sorts by x, so the order of tied
+		// points is up to the sort - the result may not depend on it
+		if n < 17 {
+			n = 17
+		}
+		raw := make([][2]float64, n)
+		for i := range raw {
+			raw[i] = [2]float64{rng.Float64(), rng.Float64()}
+		}
+		ties := 2 + rng.Intn(5)
+		for k := 0; k < ties; k++ {
+			i, j := rng.Intn(n), rng.Intn(n)
+			if i != j {
+				raw[j][0] = raw[i][0]
+			}
+		}
+		i, j, k := rng.Intn(n), rng.Intn(n), rng.Intn(n)
+		if i != j && j != k && i != k {
+			raw[j][0], raw[k][0] = raw[i][0], raw[i][0]
+		}
+		for _, q := range raw {
+			add(q[0], q[1])
+		}
+		param = fmt.Sprintf("scale=%g tied-pairs=%d", scale, ties)
 	case "quadrant":
 		// one corner of the bounding box at (or within a per cent of the extent of) the origin: the whole set in
 		// one quadrant, touching the axes (anything sized from a coordinate instead of the extent shows here)
